@@ -265,6 +265,10 @@ func (l *liar) ReceiveEnvelope(e p2p.Envelope) {
 		}
 		l.mu.Unlock()
 		l.w.log.add(Ev{K: "req-chunk", P: l.idx, C: n, G: g, H: msg.Height, F: msg.Format, I: msg.Index})
+		l.w.sched.noteRequest(msg.Height, msg.Format, msg.Index)
+		if l.w.sched.canary(msg.Height, msg.Format, msg.Index) {
+			return // withheld: the fetcher waiting for this chunk asks again after ChunkRequestTimeout
+		}
 		l.w.onChunkRequest(l, n, msg)
 	}
 }
@@ -503,6 +507,9 @@ func runChild(scn *Scenario, outPath string) {
 	stallAfter := 5 * time.Second
 	if scn.Discovery == "sleep5" {
 		stallAfter = 8 * time.Second
+	}
+	if scn.Liveness {
+		stallAfter = 16 * time.Second // generous: the liveness oracles decide on the canary's ticks, not on this
 	}
 	hard := time.After(45 * time.Second)
 	tick := time.NewTicker(250 * time.Millisecond)
